@@ -251,8 +251,9 @@ func vpH_C14_embedded_url() {
 // thorough: the families varied together, two at a time (all three together, even on one segment and one
 // query pair per side, did not finish in 15 minutes: 186 000 paths explored when it was stopped)
 func vpT_C14_path_host() {
-	pa := vpIRIParts{scheme: vpChoice(3), host: vpLetterCase(), port: vpChoice(2), segs: vpSegs(vpChoice(3)), trailing: vpBool(), dot: vpChoice(4)}
-	pb := vpIRIParts{scheme: vpChoice(2), host: vpLetterCase(), port: vpChoice(2), segs: vpSegs(vpChoice(3)), trailing: vpBool()}
+	// (two segments per side, or all four dot forms, did not finish in 15 minutes)
+	pa := vpIRIParts{scheme: vpChoice(3), host: vpLetterCase(), port: vpChoice(2), segs: vpSegs(vpChoice(2)), trailing: vpBool(), dot: vpChoice(2)}
+	pb := vpIRIParts{scheme: vpChoice(2), host: vpLetterCase(), port: vpChoice(2), segs: vpSegs(vpChoice(2)), trailing: vpBool()}
 	vpC14Laws(pa, pb, vpBool())
 }
 
